@@ -387,11 +387,14 @@ pub fn run_c03(tier: &str, seed: u64) -> campaign::CampaignResult {
         sample: Option<serde_json::Value>,
         infra: usize,
     }
+    let items: Vec<(&Program, &str)> = programs.iter().map(|pc| (&pc.program, pc.source.as_str())).collect();
+    let builts = pipeline::build_all(&items, Mode::Module);
     let results: Vec<PP> = programs
         .par_iter()
-        .map(|pc| {
+        .zip(builts.into_par_iter())
+        .map(|(pc, built)| {
             let mut pp = PP { built: false, outcomes: vec![], finding: None, sample: None, infra: 0 };
-            let built = match pipeline::build_driver(&pc.program, &pc.source, Mode::Module) {
+            let built = match built {
                 Ok(b) => b,
                 Err(_) => return pp,
             };
